@@ -15,8 +15,9 @@
      H X <class> T<hex text> ; OPTCFG                       ;
      H R CFG                 ; OPTCFG                       ; - | JSON
      H B                     ; dmin dmax dstreams           ;
-       U <mode> [CFG]        ; err newsub updaddr same      ; UOBS
+       U <mode> <#addrs> <fail> [CFG] ; err attempts created updaddr same ; UOBS
        Z                     ;                              ; UOBS
+       S <n> <ready>         ;                              ; UOBS      n connections report Shutdown
      H G OPTCFG              ; err same fresh               ; OPTCFG OPTCFG OPTCFG OPTCFG *)
 exception Bad of string
 
@@ -100,16 +101,19 @@ let finish name (x, rest) = if rest <> [] then raise (Bad (name ^ ": trailing to
 
 let parse_event opt outt obst : event =
   match opt with
-  | "U" :: mode :: r ->
+  | "U" :: mode :: naddr :: fail :: r ->
       let inc = (match mode with
           | "0" | "1" | "2" -> if r <> [] then raise (Bad "U nil with cfg") else InNil (n_of_int (int_of_string mode))
           | "4" -> InForeign
           | "3" -> InCfg (finish "U cfg" (p_cfg r))
           | _ -> raise (Bad "U mode")) in
+      (* the fake ClientConn refuses to create SubConns when told to fail or when the address list is empty *)
+      let refuse = iob fail || int_of_string naddr = 0 in
       (match outt with
-       | [e; ns; ua; same] ->
-           EvUpdate (inc, { uo_err = iob e; uo_newsub = ioz ns; uo_updaddr = ioz ua }, iob same, p_uobs obst)
+       | [e; at; cr; ua; same] ->
+           EvUpdate (inc, refuse, { uo_err = iob e; uo_attempts = ioz at; uo_created = ioz cr; uo_updaddr = ioz ua }, iob same, p_uobs obst)
        | _ -> raise (Bad "U outs"))
+  | ["S"; n; _ready] -> EvShutdown (ioz n, p_uobs obst)
   | ["Z"] -> EvMutate (p_uobs obst)
   | _ -> raise (Bad ("event: " ^ String.concat " " opt))
 
@@ -198,8 +202,9 @@ let cuobs o = Printf.sprintf "(mkUobs %s %s %b %s)" (coptcfg o.ob_cfg)
 let cinc = function
   | InNil k -> "(InNil " ^ cn k ^ ")" | InForeign -> "InForeign" | InCfg c -> "(InCfg " ^ ccfg c ^ ")"
 let cev = function
-  | EvUpdate (i, o, same, ob) -> Printf.sprintf "(EvUpdate %s (mkOut %b %s %s) %b %s)" (cinc i) o.uo_err (cz o.uo_newsub) (cz o.uo_updaddr) same (cuobs ob)
+  | EvUpdate (i, rf, o, same, ob) -> Printf.sprintf "(EvUpdate %s %b (mkOut %b %s %s %s) %b %s)" (cinc i) rf o.uo_err (cz o.uo_attempts) (cz o.uo_created) (cz o.uo_updaddr) same (cuobs ob)
   | EvMutate ob -> "(EvMutate " ^ cuobs ob ^ ")"
+  | EvShutdown (n, ob) -> Printf.sprintf "(EvShutdown %s %s)" (cz n) (cuobs ob)
 let ccase = function
   | CParse (j, r) -> Printf.sprintf "(CParse %s %s)" (cjson j) (coptcfg r)
   | CMalformed (k, r) -> Printf.sprintf "(CMalformed %s %s)" (cn k) (coptcfg r)
